@@ -13,6 +13,9 @@ pub struct Session {
     /// after the chunks: the same buffer followed by this many zero bytes (4 GiB and more),
     /// parsed in place; `m` of them are reported to the specification as the chunk
     pub huge: Option<(u64, usize)>,
+    /// a consuming receiver: whenever the auto-detecting parser accepts, the header is taken off
+    /// the front of the buffer (as many bytes as its length accessor says) and parsing goes on
+    pub consume: bool,
 }
 
 pub fn split_each(bytes: &[u8]) -> Vec<Vec<u8>> {
@@ -61,7 +64,7 @@ pub fn session_from_json(v: &Value, idx: usize) -> Session {
             .unwrap_or_default();
         split_at(&bytes, &cuts)
     };
-    Session { sid, tag: v.get("tag").cloned().unwrap_or(json!({"g": "scenario"})), chunks, huge: v.get("huge").map(|h| (h["n"].as_u64().unwrap_or(0) + h["gib"].as_u64().unwrap_or(0) * (1u64 << 30), h["m"].as_u64().unwrap_or(0) as usize)) }
+    Session { sid, tag: v.get("tag").cloned().unwrap_or(json!({"g": "scenario"})), chunks, huge: v.get("huge").map(|h| (h["n"].as_u64().unwrap_or(0) + h["gib"].as_u64().unwrap_or(0) * (1u64 << 30), h["m"].as_u64().unwrap_or(0) as usize)), consume: v.get("consume").and_then(|c| c.as_bool()).unwrap_or(false) }
 }
 
 pub fn run_session(s: &Session, out: &mut dyn Write) -> usize {
@@ -81,6 +84,29 @@ pub fn run_session(s: &Session, out: &mut dyn Write) -> usize {
         writeln!(out, "{}", json!({"sid": s.sid, "op": "Recv", "c": rl(chunk), "obs": obs})).unwrap();
         n += 1;
         last = obs;
+        if s.consume {
+            // as a proxy would: while a header is accepted, remove it and look at what follows
+            let mut rounds = 0;
+            while last["auto"]["k"] == "ok" && rounds < 8 {
+                rounds += 1;
+                let len = match crate::util::guard(|| match ppp::HeaderResult::parse(&buf) {
+                    ppp::HeaderResult::V1(Ok(h)) => h.header.len(),
+                    ppp::HeaderResult::V2(Ok(h)) => h.len(),
+                    _ => 0,
+                }) {
+                    Ok(l) => l,
+                    Err(_) => break,
+                };
+                if len == 0 {
+                    break;
+                }
+                buf.drain(..len.min(buf.len()));
+                let obs = all_entry_points(&buf, true);
+                writeln!(out, "{}", json!({"sid": s.sid, "op": "Consume", "n": len, "obs": obs})).unwrap();
+                n += 1;
+                last = obs;
+            }
+        }
     }
     if let Some((pad, m)) = s.huge {
         // the same buffer followed by n zero bytes: allocated zeroed (never touched beyond the
@@ -589,7 +615,7 @@ pub fn generate(name: &str, count: usize, rng: &mut Rng, sink: &mut dyn FnMut(Se
                 let mut bytes = toks.concat();
                 bytes.extend(random_trailer(rng));
                 let chunks = chunking(&bytes, rng, 6);
-                sink(Session { sid: format!("v1good-{}", i), tag: json!({"g": "v1good"}), chunks, huge: None });
+                sink(Session { sid: format!("v1good-{}", i), tag: json!({"g": "v1good"}), chunks, huge: None, consume: false });
             }
         }
         // single-element corruptions (C12 antecedent is re-derived by the specification)
@@ -601,7 +627,7 @@ pub fn generate(name: &str, count: usize, rng: &mut Rng, sink: &mut dyn FnMut(Se
                     bytes.extend(random_trailer(rng));
                 }
                 let chunks = if rng.chance(1, 3) { split_each(&bytes) } else { vec![bytes.clone()] };
-                sink(Session { sid: format!("v1corrupt-{}", i), tag, chunks, huge: None });
+                sink(Session { sid: format!("v1corrupt-{}", i), tag, chunks, huge: None, consume: false });
             }
         }
         // structural damage: separators, line endings, truncation at field boundaries, length marks
@@ -628,7 +654,7 @@ pub fn generate(name: &str, count: usize, rng: &mut Rng, sink: &mut dyn FnMut(Se
                     bytes.extend(random_trailer(rng));
                 }
                 let chunks = chunking(&bytes, rng, 5);
-                sink(Session { sid: format!("v1struct-{}", i), tag: json!({"g": "v1struct"}), chunks, huge: None });
+                sink(Session { sid: format!("v1struct-{}", i), tag: json!({"g": "v1struct"}), chunks, huge: None, consume: false });
             }
         }
         // byte-level mutation of lines meant to be well formed: 1-3 random edits (insert / delete /
@@ -656,7 +682,7 @@ pub fn generate(name: &str, count: usize, rng: &mut Rng, sink: &mut dyn FnMut(Se
                     bytes.extend(random_trailer(rng));
                 }
                 let chunks = chunking(&bytes, rng, 4);
-                sink(Session { sid: format!("v1mutate-{}", i), tag: json!({"g": "v1mutate"}), chunks, huge: None });
+                sink(Session { sid: format!("v1mutate-{}", i), tag: json!({"g": "v1mutate"}), chunks, huge: None, consume: false });
             }
         }
         // byte-level mutation of binary headers meant to be well formed
@@ -683,7 +709,7 @@ pub fn generate(name: &str, count: usize, rng: &mut Rng, sink: &mut dyn FnMut(Se
                     bytes.extend(random_trailer(rng));
                 }
                 let chunks = if bytes.len() > 120 { let n = bytes.len(); let cuts: Vec<usize> = (1..18).chain([n - 1, 231, 232, 233]).collect(); split_at(&bytes, &cuts) } else { chunking(&bytes, rng, 5) };
-                sink(Session { sid: format!("v2mutate-{}", i), tag: json!({"g": "v2mutate"}), chunks, huge: None });
+                sink(Session { sid: format!("v2mutate-{}", i), tag: json!({"g": "v2mutate"}), chunks, huge: None, consume: false });
             }
         }
         // every truncation point of a line (token boundaries and inside tokens) x every way the
@@ -708,7 +734,7 @@ pub fn generate(name: &str, count: usize, rng: &mut Rng, sink: &mut dyn FnMut(Se
                         bytes.extend_from_slice(b"more");
                     }
                     let chunks = if rng.chance(1, 2) { split_each(&bytes) } else { vec![bytes.clone()] };
-                    sink(Session { sid: format!("v1trunc-{}-{}", i, k), tag: json!({"g": "v1trunc"}), chunks, huge: None });
+                    sink(Session { sid: format!("v1trunc-{}-{}", i, k), tag: json!({"g": "v1trunc"}), chunks, huge: None, consume: false });
                 }
             }
         }
@@ -743,7 +769,7 @@ pub fn generate(name: &str, count: usize, rng: &mut Rng, sink: &mut dyn FnMut(Se
                 }
                 let cuts: Vec<usize> = (100..bytes.len().min(112)).collect();
                 let chunks = split_at(&bytes, &cuts);
-                sink(Session { sid: format!("v1len-{}", i), tag: json!({"g": "v1len"}), chunks, huge: None });
+                sink(Session { sid: format!("v1len-{}", i), tag: json!({"g": "v1len"}), chunks, huge: None, consume: false });
             }
         }
         // VALID TCP6 lines of an exact total length 98..=107 (address spellings chosen to hit it:
@@ -782,7 +808,7 @@ pub fn generate(name: &str, count: usize, rng: &mut Rng, sink: &mut dyn FnMut(Se
                     _ => {}
                 }
                 let chunks = split_each(&bytes);
-                sink(Session { sid: format!("v1max-{}", i), tag: json!({"g": "v1max", "len": target}), chunks, huge: None });
+                sink(Session { sid: format!("v1max-{}", i), tag: json!({"g": "v1max", "len": target}), chunks, huge: None, consume: false });
                 i += 1;
             }
         }
@@ -796,7 +822,7 @@ pub fn generate(name: &str, count: usize, rng: &mut Rng, sink: &mut dyn FnMut(Se
                     bytes.extend_from_slice(*rng.pick(&pieces));
                 }
                 let chunks = chunking(&bytes, rng, 3);
-                sink(Session { sid: format!("v1junk-{}", i), tag: json!({"g": "v1junk"}), chunks, huge: None });
+                sink(Session { sid: format!("v1junk-{}", i), tag: json!({"g": "v1junk"}), chunks, huge: None, consume: false });
             }
         }
         // text with a multi-byte character right after the first CR, all accepted-line shapes
@@ -816,7 +842,7 @@ pub fn generate(name: &str, count: usize, rng: &mut Rng, sink: &mut dyn FnMut(Se
                     bytes.extend_from_slice(b"tail\r\n");
                 }
                 let chunks = chunking(&bytes, rng, 4);
-                sink(Session { sid: format!("v1cr-{}", i), tag: json!({"g": "v1cr"}), chunks, huge: None });
+                sink(Session { sid: format!("v1cr-{}", i), tag: json!({"g": "v1cr"}), chunks, huge: None, consume: false });
             }
         }
         "v2good" => {
@@ -831,14 +857,14 @@ pub fn generate(name: &str, count: usize, rng: &mut Rng, sink: &mut dyn FnMut(Se
                 } else {
                     chunking(&bytes, rng, 6)
                 };
-                sink(Session { sid: format!("v2good-{}", i), tag: json!({"g": "v2good"}), chunks, huge: None });
+                sink(Session { sid: format!("v2good-{}", i), tag: json!({"g": "v2good"}), chunks, huge: None, consume: false });
             }
         }
         "v2corrupt" => {
             for i in 0..count {
                 let (tag, bytes) = corrupt_v2(rng);
                 let chunks = if rng.chance(1, 4) && bytes.len() < 100 { split_each(&bytes) } else { vec![bytes.clone()] };
-                sink(Session { sid: format!("v2corrupt-{}", i), tag, chunks, huge: None });
+                sink(Session { sid: format!("v2corrupt-{}", i), tag, chunks, huge: None, consume: false });
             }
         }
         // an accepted header followed by more than 64 KiB in the same buffer
@@ -851,7 +877,7 @@ pub fn generate(name: &str, count: usize, rng: &mut Rng, sink: &mut dyn FnMut(Se
                 bytes.extend(std::iter::repeat(fill).take(extra));
                 let n = bytes.len();
                 let chunks = split_at(&bytes, &[hl.saturating_sub(1), hl, hl + 1, hl + 65535, hl + 65536, n - 1]);
-                sink(Session { sid: format!("bigtrail-{}", i), tag: json!({"g": "bigtrail"}), chunks, huge: None });
+                sink(Session { sid: format!("bigtrail-{}", i), tag: json!({"g": "bigtrail"}), chunks, huge: None, consume: false });
             }
         }
         // buffers of 4 GiB and more: a head (complete v2 header, v2 header with part of its
@@ -891,7 +917,38 @@ pub fn generate(name: &str, count: usize, rng: &mut Rng, sink: &mut dyn FnMut(Se
                 let total = 16 + (k << 32) + j;
                 let pad = total - head.len() as u64;
                 let m = need.max(head.len()) - head.len() + 130;
-                sink(Session { sid: format!("huge-{}", i), tag: json!({"g": "huge"}), chunks: vec![head], huge: Some((pad, m)) });
+                sink(Session { sid: format!("huge-{}", i), tag: json!({"g": "huge"}), chunks: vec![head], huge: Some((pad, m)), consume: false });
+            }
+        }
+        // pipelined headers: two to four headers (text and binary mixed) back to back, followed by
+        // application bytes, arbitrary read boundaries, consumed by a receiver as they are accepted
+        "pipe" => {
+            for i in 0..count {
+                let k = 2 + rng.below(3) as usize;
+                let mut bytes = Vec::new();
+                for _ in 0..k {
+                    if rng.chance(1, 2) {
+                        bytes.extend(random_line_tokens(rng).concat());
+                    } else {
+                        let mut h = random_v2_good(rng);
+                        while h.len() > 600 {
+                            h = random_v2_good(rng);
+                        }
+                        bytes.extend(h);
+                    }
+                }
+                match rng.below(4) {
+                    0 => bytes.extend_from_slice(b"GET / HTTP/1.1\r\n\r\n"),
+                    1 => bytes.extend_from_slice(b"PROXY"),
+                    2 => bytes.extend_from_slice(&[0x0D, 0x0A, 0x0D, 0x0A, 0x00]),
+                    _ => {}
+                }
+                let chunks = match rng.below(3) {
+                    0 => vec![bytes.clone()],
+                    1 => split_each(&bytes),
+                    _ => split_random(&bytes, rng),
+                };
+                sink(Session { sid: format!("pipe-{}", i), tag: json!({"g": "pipe"}), chunks, huge: None, consume: true });
             }
         }
         // control-byte pairs: count >= 65536 means all of them, otherwise axis-aligned + random
@@ -918,7 +975,7 @@ pub fn generate(name: &str, count: usize, rng: &mut Rng, sink: &mut dyn FnMut(Se
                 let l = lens[i % 3];
                 let body = distinct_body(l, rng);
                 let bytes = v2_header(vc, afp, l as u16, &body);
-                sink(Session { sid: format!("v2ctrl-{}", i), tag: json!({"g": "v2ctrl"}), chunks: vec![bytes], huge: None });
+                sink(Session { sid: format!("v2ctrl-{}", i), tag: json!({"g": "v2ctrl"}), chunks: vec![bytes], huge: None, consume: false });
             }
         }
         // declared length vs bytes present
@@ -985,7 +1042,7 @@ pub fn generate(name: &str, count: usize, rng: &mut Rng, sink: &mut dyn FnMut(Se
                     cuts.push(65534);
                 }
                 let chunks = split_at(&bytes, &cuts);
-                sink(Session { sid: format!("v2len-{}", i), tag: json!({"g": "v2len"}), chunks, huge: None });
+                sink(Session { sid: format!("v2len-{}", i), tag: json!({"g": "v2len"}), chunks, huge: None, consume: false });
             }
         }
         "v2sig" => {
@@ -995,7 +1052,7 @@ pub fn generate(name: &str, count: usize, rng: &mut Rng, sink: &mut dyn FnMut(Se
                 let val = if count >= 12 * 255 { ((i / 12) % 256) as u8 } else { rng.next() as u8 };
                 bytes[pos] = val;
                 let chunks = if rng.chance(1, 3) { split_each(&bytes[..bytes.len().min(20)]) } else { vec![bytes.clone()] };
-                sink(Session { sid: format!("v2sig-{}", i), tag: json!({"g": "v2sig"}), chunks, huge: None });
+                sink(Session { sid: format!("v2sig-{}", i), tag: json!({"g": "v2sig"}), chunks, huge: None, consume: false });
             }
         }
         // what the crate's own builder emits for random call sequences, as parser input
@@ -1018,7 +1075,7 @@ pub fn generate(name: &str, count: usize, rng: &mut Rng, sink: &mut dyn FnMut(Se
                 } else {
                     chunking(&bytes, rng, 5)
                 };
-                sink(Session { sid: format!("bparse-{}", i), tag: json!({"g": "bparse"}), chunks, huge: None });
+                sink(Session { sid: format!("bparse-{}", i), tag: json!({"g": "bparse"}), chunks, huge: None, consume: false });
             }
         }
         // both formats in one stream
@@ -1035,7 +1092,7 @@ pub fn generate(name: &str, count: usize, rng: &mut Rng, sink: &mut dyn FnMut(Se
                     _ => { let k = rng.below(17) as usize; let mut v = bin[..k.min(bin.len())].to_vec(); v.extend(&line); v }
                 };
                 let chunks = chunking(&bytes, rng, 6);
-                sink(Session { sid: format!("mixed-{}", i), tag: json!({"g": "mixed"}), chunks, huge: None });
+                sink(Session { sid: format!("mixed-{}", i), tag: json!({"g": "mixed"}), chunks, huge: None, consume: false });
             }
         }
         "bytes" => {
@@ -1043,7 +1100,7 @@ pub fn generate(name: &str, count: usize, rng: &mut Rng, sink: &mut dyn FnMut(Se
                 let n = rng.below(40) as usize;
                 let bytes = rng.bytes(n);
                 let chunks = chunking(&bytes, rng, 3);
-                sink(Session { sid: format!("bytes-{}", i), tag: json!({"g": "bytes"}), chunks, huge: None });
+                sink(Session { sid: format!("bytes-{}", i), tag: json!({"g": "bytes"}), chunks, huge: None, consume: false });
             }
         }
         other => panic!("unknown stream generator {}", other),
